@@ -122,6 +122,11 @@ func NewAtomVisitor() Visitor {
 	return &AtomVisitor{}
 }
 
+// A shortest path pattern is only modeled as a pattern part of a reading clause, not as an expression atom
+func (s *AtomVisitor) EnterOC_ShortestPathPattern(ctx *parser.OC_ShortestPathPatternContext) {
+	s.newUnsupportedRuleError(ctx)
+}
+
 func (s *AtomVisitor) EnterOC_Parameter(ctx *parser.OC_ParameterContext) {
 	s.ctx.Enter(&SymbolicNameOrReservedWordVisitor{})
 }
